@@ -273,7 +273,7 @@ class Coordinate:
         """
         def zero_pad(num: Union[float, int], length: int) -> str:
             """Stringifies a number, removes decimal, and pads zeros to the prefix"""
-            _ = str(num).replace('.', '')
+            _ = (f'{num:.2f}' if isinstance(num, float) else str(num)).replace('.', '')
             return '0'*(length-len(_))+_
 
         lon, lat = self.to_dms()
